@@ -38,6 +38,11 @@ OPS = [
     E("Not", "Not", [S("b")]),
     E("And", "And", [S("b"), S("b", [True])]),
     E("Max", "Max", [S("fi"), S("fi", [0, 2.5])]),
+    # a literal in the FIRST slot of a variadic input, tensors only after it (seeded C18g: the tail of a variadic
+    # input did not bind the type variable, so the leading literal kept its Python type)
+    E("MaxL", "Max", [S("", [0, 2.5, -3]), S("fi")]),
+    E("MinL3", "Min", [S("", [1, 2.5]), S("fi"), S("fi", [0])]),
+    E("SumL", "Sum", [S("", [1, -0.0]), S("f"), S("f")]),
     E("MatMul", "MatMul", [S("f"), S("f")]),
     E("Transpose", "Transpose", [S("fi")], attrs=[{"perm": [1, 0]}], core=True),
     E("Reshape", "Reshape", [S("fi"), S("", [[3, 2], [-1], [1, 2]])], core=True),
